@@ -148,7 +148,9 @@ def gamma2(tier, seed):
     bodies.append(nested)
     for kind, mk, plain in bodies:
         feat = f"times_{kind}"
-        for n in ints:
+        # (three or more repetitions of an alternation of sequences are beyond z3 within the timeout: bound n <= 2 there)
+        ints_k = [n for n in ints if n <= 2] if kind == "or_of_and" else ints
+        for n in ints_k:
             pat = ["push", mk(n), "ret"]
             t = {"id": f"g2/{kind}/n={n}", "doc": doc_of(pat), "feature": feat}
             if n == 2:
@@ -160,7 +162,7 @@ def gamma2(tier, seed):
                 # n written copies must be interchangeable with times: n (both are checked against the same spec)
                 pat2 = ["push"] + [plain] * n + ["ret"]
                 out.append({"id": f"g2/{kind}/copies={n}", "doc": doc_of(pat2), "pattern": pat, "feature": f"copies_{kind}"})
-        for a, b in ranges:
+        for a, b in (ranges if kind != "or_of_and" else [r for r in ranges if r[1] <= 2]):
             pat = ["push", mk({"min": a, "max": b}), "ret"]
             t = {"id": f"g2/{kind}/min={a},max={b}", "doc": doc_of(pat), "feature": feat}
             if (a, b) == (1, 2):
@@ -593,7 +595,7 @@ def gamma5(tier, seed):
     # the order of the keys in the $deref mapping is irrelevant, also when the fields DEFINE captures
     T("reg/first_in_deref_key_order", [{"mov": [{"$deref": {"constant_multiplier": 4, "register_multiplier": "&indreg.64", "main_reg": "&genreg.64"}}]}, {"add": ["&genreg.32", "&indreg.16"]}], ["&genreg", "&indreg"], {"&genreg": list("abcd"), "&indreg": ["s", "d"]}, "cap_register_in_deref_key_order", lemmas=("AEM",), domain="att_mem_regs")
     T("reg/first_in_deref_key_order2", [{"mov": [{"$deref": {"register_multiplier": "&indreg.64", "main_reg": "&genreg.64", "constant_multiplier": 4}}]}, {"add": ["&indreg.16"]}, {"sub": ["&genreg.32"]}], ["&genreg", "&indreg"], {"&genreg": list("abcd"), "&indreg": ["s", "d"]}, "cap_register_in_deref_key_order", lemmas=("AEM",), domain="att_mem_regs")
-    T("reg/first_in_deref_offset_capture", [{"lea": [{"$deref": {"main_reg": "&genreg.64", "register_multiplier": "&indreg.64", "constant_multiplier": 8, "constant_offset": "&off"}}]}, {"mov": ["&off", "&indreg.32"]}, {"push": ["&genreg.16"]}], ["&genreg", "&indreg", "&off"], {"&genreg": ["a", "b"], "&indreg": ["s", "d"], "&off": ["0x10", "-0x8"]}, "cap_in_deref_offset", lemmas=("AEM",), domain="att_mem_regs")
+    T("reg/first_in_deref_offset_capture", [{"lea": [{"$deref": {"main_reg": "&genreg.64", "register_multiplier": "&indreg.64", "constant_multiplier": 8, "constant_offset": "&off"}}]}, {"mov": [{"$deref": {"main_reg": "rsp", "constant_offset": "&off"}}, "&indreg.32"]}, {"push": ["&genreg.16"]}], ["&genreg", "&indreg", "&off"], {"&genreg": ["a", "b"], "&indreg": ["s", "d"], "&off": ["0x10", "-0x8"]}, "cap_in_deref_offset", lemmas=("AEM", "TWIN"), domain="att_mem_regs", twin=[{"lea": [{"$deref": {"main_reg": "&genreg.64", "register_multiplier": "&indreg.64", "constant_multiplier": 8, "constant_offset": "&off"}}]}, {"mov": [{"$deref": {"main_reg": "rsp", "constant_offset": "&off"}}, "&indreg.32"]}, {"push": ["&genreg.32"]}])
     T("reg/after_index_only_deref", [{"mov": [{"$deref": {"main_reg": "%bx", "register_multiplier": "%si", "constant_offset": "0x10"}}]}, {"push": ["&genreg.16"]}, {"pop": ["&genreg.16"]}], ["&genreg"], {"&genreg": list("abcd")}, "cap_after_index_only_deref", lemmas=("AEM",), domain="att_mem_regs")
     T("reg/first_in_deref", [{"mov": [{"$deref": {"main_reg": "&genreg.64", "register_multiplier": "&indreg.64", "constant_multiplier": 4}}]}, {"add": ["&genreg.32", "&indreg.16"]}], ["&genreg", "&indreg"], {"&genreg": list("abcd"), "&indreg": ["s", "d"]}, "cap_register_in_deref", lemmas=("AEM",), domain="att_mem_regs")
     return out
